@@ -1,0 +1,85 @@
+//go:build verif
+
+// Contracts for package syntax, read by /verif/govc (contract-based deductive verification).
+// This file contains comments only; it is compiled only with the build tag "verif" and declares nothing.
+package syntax
+
+// ---------------------------------------------------------------------------------------------
+// C16: character-class membership (charclass.go)
+// ---------------------------------------------------------------------------------------------
+
+//@ spec func RangeHas(r SingleRange, ch rune) bool = r.First <= ch && ch <= r.Last
+//@ spec func InRanges(rs []SingleRange, ch rune) bool = exists i int :: 0 <= i && i < len(rs) && rs[i].First <= ch && ch <= rs[i].Last
+// ranges ordered and disjoint (what canonicalize establishes; needed by both lookup strategies)
+//@ spec func RangesSorted(rs []SingleRange) bool = (forall i int :: 0 <= i && i < len(rs) ==> rs[i].First <= rs[i].Last) &&
+//@     (forall i int, j int :: 0 <= i && i < j && j < len(rs) ==> rs[i].Last < rs[j].First)
+
+// Category membership, abstracting the Unicode tables: CatHit(name, ch) is "ch belongs to the named category"
+// (unicode.IsSpace for the space pseudo-category, IsWordChar for the word pseudo-category, unicode.Is otherwise).
+//@ ghost func CatHit(cat string, ch rune) bool
+// first decisive category decides: a hit on a positive category or a miss on a negated one is "in";
+// a hit on a negated category is "out"
+//@ spec func CatDecides(ct Category, ch rune) bool = CatHit(ct.Cat, ch) || ct.Negate
+//@ spec func InCats(cats []Category, ch rune) bool = exists i int :: 0 <= i && i < len(cats) && CatDecides(cats[i], ch) && (CatHit(cats[i].Cat, ch) != cats[i].Negate) &&
+//@     forall j int :: 0 <= j && j < i ==> !CatDecides(cats[j], ch)
+
+// Membership of a subtracted set, by reference (defined by the axiom below; keeps Member non-recursive)
+//@ ghost func MemberP(p *CharSet, ch rune) bool
+//@ spec func BaseMember(c CharSet, ch rune) bool = (InRanges(c.ranges, ch) || (len(c.categories) > 0 && InCats(c.categories, ch))) != c.negate
+//@ spec func Member(c CharSet, ch rune) bool = BaseMember(c, ch) && !(c.sub != nil && MemberP(c.sub, ch))
+
+//@ func (c *CharSet) charInCategories(ch rune) (res bool)
+//@   props C16
+//@   requires c != nil
+//@   requires[cats-known] forall i int :: 0 <= i && i < len(c.categories) ==> CatKnown(c.categories[i].Cat)
+//@   ensures res == InCats(c.categories, ch)
+//@   loop 0:
+//@     invariant -1 <= rangeindex && rangeindex < len(c.categories)
+//@     invariant forall j int :: 0 <= j && j <= rangeindex ==> !CatDecides(c.categories[j], ch)
+//@     decreases len(c.categories) - rangeindex
+
+// A category name is known when it is one of the two pseudo categories or a key of the Unicode table map.
+//@ spec func CatKnown(cat string) bool = cat == SpaceCategoryText || cat == WordCategoryText || (has(unicodeCategories, cat) && unicodeCategories[cat] != nil)
+
+// Definition of CatHit by cases (this is what "belongs to the category" means; the Unicode tables themselves are
+// outside the model: unicode.Is / unicode.IsSpace / IsWordChar are uninterpreted).
+//@ axiom cathit-space: forall ch rune :: CatHit(SpaceCategoryText, ch) == unicode.IsSpace(ch)
+//@ axiom cathit-word:  forall ch rune :: CatHit(WordCategoryText, ch) == IsWordChar(ch)
+//@ axiom cathit-table: forall cat string, ch rune :: cat != SpaceCategoryText && cat != WordCategoryText ==> CatHit(cat, ch) == unicode.Is(unicodeCategories[cat], ch)
+
+//@ func IsWordChar(r rune) (b bool)
+//@   trusted Unicode table lookups (unicode.In over L, Mn, Nd, Pc plus ZWJ/ZWNJ); treated as an uninterpreted predicate
+//@   pure
+
+//@ func (c CharSet) charInSlow(ch rune) (res bool)
+//@   props C16
+//@   requires RangesSorted(c.ranges)
+//@   requires[cats-known] forall i int :: 0 <= i && i < len(c.categories) ==> CatKnown(c.categories[i].Cat)
+//@   requires c.sub != nil ==> SetOK(c.sub)
+//@   ensures res == Member(c, ch)
+//@   terminates
+//@   loop 0:
+//@     invariant -1 <= rangeindex && rangeindex < len(c.ranges) && len(c.ranges) <= 4
+//@     invariant forall k int :: 0 <= k && k <= rangeindex ==> !(c.ranges[k].First <= ch && ch <= c.ranges[k].Last)
+//@     decreases len(c.ranges) - rangeindex
+//@   loop 1:
+//@     invariant 0 <= lo && lo <= hi && hi <= len(c.ranges) && n == len(c.ranges)
+//@     invariant forall k int :: 0 <= k && k < lo ==> c.ranges[k].First <= ch
+//@     invariant forall k int :: hi <= k && k < len(c.ranges) ==> c.ranges[k].First > ch
+//@     decreases hi - lo
+
+// Invariant of a character set reachable through a pointer: lookups on it are specified.
+//@ ghost func SetOK(p *CharSet) bool
+//@ spec func SetOKv(c CharSet) bool = RangesSorted(c.ranges) && (forall i int :: 0 <= i && i < len(c.categories) ==> CatKnown(c.categories[i].Cat)) &&
+//@     (c.sub != nil ==> SetOK(c.sub)) && AsciiAgrees(c)
+//@ axiom setok-unfold: forall p *CharSet :: p != nil && SetOK(p) ==> SetOKv(*p)
+//@ axiom memberp-def:  forall p *CharSet, ch rune :: p != nil ==> MemberP(p, ch) == Member(*p, ch)
+
+// The ASCII bitmap, when present, caches exactly the general lookup for runes below 128.
+//@ spec func BitmapHas(bm *asciiBitmap, ch rune) bool = band(bm.bits[ch/64], pow2(ch % 64)) != 0
+//@ spec func AsciiAgrees(c CharSet) bool = c.ascii != nil ==> forall a rune :: 0 <= a && a < 128 ==> BitmapHas(c.ascii, a) == Member(c, a)
+
+//@ func (c CharSet) CharIn(ch rune) (res bool)
+//@   props C16
+//@   requires SetOKv(c)
+//@   ensures res == Member(c, ch)
